@@ -209,11 +209,26 @@ def run_bldfm_multitower(
 # --- Worker function for parallel execution (must be top-level for pickling) ---
 
 
+def _limit_numba_threads():
+    """Restrict numba to one thread in a worker process.
+
+    numba re-reads NUMBA_NUM_THREADS at every compilation and refuses a value
+    that differs from the one its thread pool was launched with. A forked
+    worker inherits the parent's launched pool (after a solve with
+    NUM_THREADS > 1), so the variable may only be changed while no pool exists;
+    otherwise the first compilation in the worker raises RuntimeError.
+    """
+    from numba.np.ufunc import parallel as _numba_parallel
+
+    if not getattr(_numba_parallel, "_is_initialized", False):
+        os.environ["NUMBA_NUM_THREADS"] = "1"
+
+
 def _worker_single(args):
     """Worker function for parallel execution of a single (tower, timestep) pair."""
     config, tower, met_index = args
     # Reset inherited state from parent process to avoid fork-safety issues
-    os.environ["NUMBA_NUM_THREADS"] = "1"
+    _limit_numba_threads()
     from bldfm import config as cfg
 
     cfg.NUM_THREADS = 1
@@ -227,7 +242,7 @@ def _worker_timeseries(args):
     """Worker function for parallel execution of a full timeseries for one tower."""
     config, tower = args
     # Reset inherited state from parent process to avoid fork-safety issues
-    os.environ["NUMBA_NUM_THREADS"] = "1"
+    _limit_numba_threads()
     from bldfm import config as cfg
 
     cfg.NUM_THREADS = 1
